@@ -98,3 +98,26 @@ count_zeros!(std_spec_count_zeros_u16, u16);
 count_zeros!(std_spec_count_zeros_u32, u32);
 count_zeros!(std_spec_count_zeros_u64, u64);
 count_zeros!(std_spec_count_zeros_u128, u128);
+
+/// `assume_specification[W::rotate_right]` + `axiom_rotr` of verus/units/writer_copy_from.rs
+macro_rules! rotate_right {
+    ($name:ident, $w:ty) => {
+        #[kani::proof]
+        pub fn $name() {
+            let x: $w = kani::any();
+            let n: u32 = kani::any();
+            let j: u32 = kani::any();
+            const B: u32 = <$w>::BITS;
+            kani::assume(j < B);
+            let r = x.rotate_right(n);
+            let src = ((j as u64 + n as u64) % B as u64) as u32;
+            kani::assert(((r >> j) & 1) == ((x >> src) & 1), "OBS std_spec.rotate_right: bit j of rotate_right(x, n) is bit (j + n) mod BITS of x");
+            kani::cover!(n > B && j == 3, "std_spec.rotate_right reachable");
+        }
+    };
+}
+rotate_right!(std_spec_rotate_right_u8, u8);
+rotate_right!(std_spec_rotate_right_u16, u16);
+rotate_right!(std_spec_rotate_right_u32, u32);
+rotate_right!(std_spec_rotate_right_u64, u64);
+rotate_right!(std_spec_rotate_right_u128, u128);
